@@ -112,7 +112,8 @@ def main():
                 tr, inputs = r.get('traces', {}).get(p['id'], ('', {}))
                 st, txt = native_replay(byid[r['job']], inputs, scratch)
                 rp_dir = os.path.join(vf.VERIF, 'replay', 'out', pid or 'dev'); os.makedirs(rp_dir, exist_ok=True)
-                path = os.path.join(rp_dir, re.sub(r'[^A-Za-z0-9_.-]', '_', '%s__%s' % (r['key'], p['id'])) + '.json')
+                pidname = p['id'] if len(p['id']) < 60 else (vf.hashlib.sha1(p['id'].encode()).hexdigest()[:10] + '_' + p['id'].split('.', 1)[-1][-40:])
+                path = os.path.join(rp_dir, re.sub(r'[^A-Za-z0-9_.-]', '_', '%s__%s' % (r['key'], pidname)) + '.json')
                 json.dump({'property': pid, 'job': r['job'], 'cfg': r['cfg'], 'variant': r['variant'], 'obligation': p['id'], 'description': p['desc'], 'status': p['status'],
                            'functions_under_contract': byid[r['job']].under_contract, 'inputs': inputs, 'native_replay': st, 'native_output': txt,
                            'checker_cmd': r['cmd'], 'verifier_output': tr[-60000:] if tr else r['log_tail']}, open(path, 'w'), indent=1)
